@@ -33,8 +33,8 @@ fn announce_iter_stacks() {
     #[cfg(kani)]
     {
         crate::stubs::allow_alloc(3, 8); // vec![0]
-        crate::stubs::allow_alloc(4, 32); // grown stack (cap 4)
-        crate::stubs::allow_alloc(5, 64); // grown stack (cap 8)
+        crate::stubs::allow_grow(0, 8, 32); // stack grows to capacity 4
+        crate::stubs::allow_grow(1, 32, 64); // ... and 8
     }
 }
 
@@ -131,10 +131,14 @@ pub fn collect2<S: Src>(s: &mut S) {
     #[cfg(kani)]
     {
         use crate::stubs::allow_alloc;
+        use crate::stubs::allow_grow;
         allow_alloc(0, 40); // vec![root]
-        allow_alloc(1, 32); // free list / iterator stacks
-        allow_alloc(2, 8);
-        allow_alloc(3, 64);
+        allow_alloc(1, 32); // first push onto an empty Vec<usize>
+        allow_alloc(2, 8); // vec![0]
+        allow_grow(0, 40, 160); // arena 1 -> 4 -> 8 nodes
+        allow_grow(1, 160, 320);
+        allow_grow(2, 8, 32); // iterator stacks 1 -> 4 -> 8
+        allow_grow(3, 32, 64);
     }
     let p1 = any_p(s);
     let p2 = any_p(s);
@@ -229,7 +233,8 @@ pub fn split_interleave<S: Src, const N: usize>(s: &mut S) {
     #[cfg(kani)]
     {
         crate::stubs::allow_alloc(3, 8);
-        crate::stubs::allow_alloc(4, 32);
+        crate::stubs::allow_grow(0, 8, 32);
+        crate::stubs::allow_grow(1, 32, 64);
     }
     let idx = s.idx(N);
     s.assume(r[idx] && nodes[idx].2.is_some() && nodes[idx].3.is_some());
